@@ -1040,7 +1040,8 @@ func genObj(rt *rapid.T, i int, cal bool) Obj {
 	o := Obj{Name: fmt.Sprintf("%s%d%s", genSeg(rt, "oname", ""), i, ext)}
 	o.ETag = vev.B(rapid.SampledFrom([]string{"", "abc", `q"uote`, `back\slash`, "é", "a\x00b", "W/x", "1 2", `"quoted"`, `'single'`}).Draw(rt, "etag"))
 	if rapid.Bool().Draw(rt, "hasmtime") {
-		o.MTime = rapid.Int64Range(1, 4e9).Draw(rt, "mtime")
+		// also instants before the Unix epoch (after C10-s17): a date is "unset" only when it is the zero time
+		o.MTime = rapid.OneOf(rapid.Int64Range(1, 4e9), rapid.Int64Range(1, 4e9), rapid.Int64Range(1, 4e9), rapid.SampledFrom([]int64{-1, -86400, -14182940, -2000000000, 1})).Draw(rt, "mtime")
 	}
 	if cal {
 		n := rapid.IntRange(1, 3).Draw(rt, "ncomps")
